@@ -661,6 +661,14 @@ func extractMinimalRegions(t *trie.Trie[bit256.Key, peer.ID], path bitstr.Key, s
 		return append(extractMinimalRegions(t.Branch(b), path+bitstr.Key(byte('0'+b)), size, order),
 			extractMinimalRegions(t.Branch(1-b), path+bitstr.Key(byte('1'-b)), size, order)...)
 	}
+	if len(path) > 0 {
+		// `t` is rooted at depth len(path). Region tries are rooted at depth 0,
+		// like the Keys trie built by AssignKeysToRegions: AllocateToKClosest
+		// walks Keys and Peers in lock step starting from depth 0.
+		peers := trie.New[bit256.Key, peer.ID]()
+		peers.AddMany(AllEntries(t, order)...)
+		t = peers
+	}
 	return []Region{{Prefix: path, Peers: t}}
 }
 
